@@ -1489,256 +1489,6 @@ Theorem TB_cached_has_port : forall tb fx c h st0 st cache outss li a g cid,
 Proof. first [ exact TB.TB_cached_has_port | intros; eapply TB.TB_cached_has_port; eassumption ]. Qed.
 End P_TB.
 
-(* ------------------------------------------------------------------ C07 *)
-From Model Require Import Bytes Wire Uri Hdr Message Msg StaticRoute RoundRobin Pins Proxy RunProxy SpecC14 SpecProxy SpecProxy2.
-From Model.proofs Require C07 C07_bridge C07_bridge_tcp.
-Section P_C07.
-Import C07 C07_bridge C07_bridge_tcp.
-Theorem C07_judge_bridge_tcp_msg :
-  forall (pc : proxy_case) (stj : jstate) (fx : fixes) (now : Z) (br : bytes) (cid li : nat) (lc : listen_cfg)
-         (cn : conn) (data : bytes) (jin : jmsg) (m : message) (rest : bytes)
-         (x x' : ctx) (pre : list output) (keep : output -> bool) (closed : list nat),
-  let c := pc_cfg pc in
-  let e := mk_env fx c (item_rs_of (fx_wiring fx)) li lc now br in
-  nth_opt (c_listens c) li = Some lc ->
-  find (fun y => Nat.eqb (fst y) cid) (js_conns stj) = Some (cid, (li, cn_peer cn, cn_peer_port cn)) ->
-  cn_from cn = {| t_kind := KTcpListen; t_addr := lc_addr lc; t_port := lc_tcp lc |} ->
-  cn_received_support cn = received_on lc ->
-  j_read data = Some jin -> parse_message data = Ok (m, rest) ->
-  via_domain m ->
-  src_ok (cn_peer cn) -> branch_ok br ->
-  safe1 (lc_addr lc) = true -> 0 <= lc_udp lc <= 65535 -> 0 <= lc_tcp lc <= 65535 ->
-  (forall h t, alookup h (x_learned x) = Some t -> safe1 (t_addr t) = true /\ 0 <= t_port t <= 65535) ->
-  process_message e (cn_peer cn) (cn_peer_port cn) (cn_from cn) (cn_received_support cn) (Some (cn_id cn)) m x
-    = Ok x' ->
-  x_outs x' = x_outs x ++ pre ->
-  judge_C07_event pc stj (EvTcpData cid data) (map lab (filter keep pre)) closed = O.
-Proof. first [ exact C07_bridge_tcp.C07_judge_bridge_tcp_msg | intros; eapply C07_bridge_tcp.C07_judge_bridge_tcp_msg; eassumption ]. Qed.
-Theorem C07_judge_bridge_tcp_step :
-  forall (pc : proxy_case) (stj : jstate) (fx : fixes) (now : Z) (br : bytes) (st : state) (cid li : nat)
-         (lc : listen_cfg) (cn : conn) (data : bytes) (jin : jmsg) (m : message) (rest : bytes)
-         (st' : state) (outs : list output) (keep : output -> bool) (closed : list nat),
-  nth_opt (c_listens (pc_cfg pc)) li = Some lc ->
-  find (fun y => Nat.eqb (cn_id y) cid) (st_conns st) = Some cn ->
-  find (fun y => Nat.eqb (fst y) cid) (js_conns stj) = Some (cid, (li, cn_peer cn, cn_peer_port cn)) ->
-  cn_li cn = li ->
-  cn_from cn = {| t_kind := KTcpListen; t_addr := lc_addr lc; t_port := lc_tcp lc |} ->
-  cn_received_support cn = received_on lc ->
-  j_read data = Some jin -> parse_message data = Ok (m, rest) -> trim_left rest = [] ->
-  via_domain m -> src_ok (cn_peer cn) -> branch_ok br ->
-  safe1 (lc_addr lc) = true -> 0 <= lc_udp lc <= 65535 -> 0 <= lc_tcp lc <= 65535 ->
-  (forall h t, alookup h (st_learned st) = Some t -> safe1 (t_addr t) = true /\ 0 <= t_port t <= 65535) ->
-  proxy_step fx (pc_cfg pc) now br st (EvTcpData cid data) = Ok (st', outs) ->
-  judge_C07_event pc stj (EvTcpData cid data) (map lab (filter keep outs)) closed = O.
-Proof. first [ exact C07_bridge_tcp.C07_judge_bridge_tcp_step | intros; eapply C07_bridge_tcp.C07_judge_bridge_tcp_step; eassumption ]. Qed.
-Theorem C07_stamp : forall peer port m pre h post v rest,
-  m_headers m = pre ++ h :: post -> nomatch VIA pre -> same_header (h_name h) VIA = true ->
-  hval_vias (h_val h) = Some (v :: rest) ->
-  s_set_received peer port m =
-    ({| m_start := m_start m;
-        m_headers := pre ++ {| h_name := h_name h; h_val := HVia (stamp peer port v :: rest) |} :: post;
-        m_body := m_body m |}, Ok tt).
-Proof. first [ exact C07.C07_stamp | intros; eapply C07.C07_stamp; eassumption ]. Qed.
-Theorem C07_stamp_params : forall peer port v,
-  v_params (stamp peer port v) =
-    (if kv_has (s2b "rport") (kv_set (s2b "received") peer (v_params v))
-     then kv_set (s2b "rport") (itoa port) (kv_set (s2b "received") peer (v_params v))
-     else kv_set (s2b "received") peer (v_params v)) /\
-  v_name (stamp peer port v) = v_name v /\ v_version (stamp peer port v) = v_version v /\
-  v_transport (stamp peer port v) = v_transport v /\ v_host (stamp peer port v) = v_host v /\
-  v_port (stamp peer port v) = v_port v.
-Proof. first [ exact C07.C07_stamp_params | intros; eapply C07.C07_stamp_params; eassumption ]. Qed.
-Theorem C07_kv_set_char : forall k v l,
-  kv_get k (kv_set k v l) = Some v /\
-  (forall k', k' <> k -> kv_get k' (kv_set k v l) = kv_get k' l) /\
-  filter (fun p => negb (beq (k_key p) k)) (kv_set k v l) = filter (fun p => negb (beq (k_key p) k)) l /\
-  (kv_has k l = true -> exists a p b, l = a ++ p :: b /\ k_key p = k /\ kv_get k a = None /\
-                                      kv_set k v l = a ++ {| k_key := k_key p; k_val := v |} :: b) /\
-  (kv_has k l = false -> kv_set k v l = l ++ [{| k_key := k; k_val := v |}]).
-Proof. first [ exact C07.C07_kv_set_char | intros; eapply C07.C07_kv_set_char; eassumption ]. Qed.
-Theorem C07_pipeline : forall e peer port from rs tcp m0 x x',
-  is_request m0 = true ->
-  process_message e peer port from rs tcp m0 x = Ok x' ->
-  exists outs, x_outs x' = x_outs x ++ outs /\
-               Forall (relayed_as (e_branch e) (stamp_hdrs rs peer port (via_hdrs m0))) outs.
-Proof. first [ exact C07.C07_pipeline | intros; eapply C07.C07_pipeline; eassumption ]. Qed.
-Theorem C07_wiring : forall lc,
-  item_rs_of true lc = negb (lc_no_received lc) /\
-  pa_received_support (wire_proxy lc) = negb (lc_no_received lc).
-Proof. first [ exact C07.C07_wiring | intros; eapply C07.C07_wiring; eassumption ]. Qed.
-Theorem C07_wiring_legacy : forall lc, item_rs_of false lc = lc_def_route lc.
-Proof. first [ exact C07.C07_wiring_legacy | intros; eapply C07.C07_wiring_legacy; eassumption ]. Qed.
-Theorem C07_wired_reachable : forall fx c st, fx_wiring fx = true -> reachable fx c st -> wired c (st_conns st).
-Proof. first [ exact C07.C07_wired_reachable | intros; eapply C07.C07_wired_reachable; eassumption ]. Qed.
-Theorem C07_step_udp : forall fx c now br st li src sport data lc m rest st' outs,
-  nth_opt (c_listens c) li = Some lc -> parse_message data = Ok (m, rest) -> is_request m = true ->
-  proxy_step fx c now br st (EvUdp li src sport data) = Ok (st', outs) ->
-  Forall (relayed_as br (stamp_hdrs (item_rs_of (fx_wiring fx) lc) src sport (via_hdrs m))) outs.
-Proof. first [ exact C07.C07_step_udp | intros; eapply C07.C07_step_udp; eassumption ]. Qed.
-Theorem C07_step_tcp : forall fx c now br st cid data cn lc st' outs,
-  find (fun x => Nat.eqb (cn_id x) cid) (st_conns st) = Some cn ->
-  nth_opt (c_listens c) (cn_li cn) = Some lc ->
-  proxy_step fx c now br st (EvTcpData cid data) = Ok (st', outs) ->
-  exists oss, outs = List.concat oss /\
-    Forall2 (fun m os => is_request m = true ->
-               Forall (relayed_as br (stamp_hdrs (cn_received_support cn) (cn_peer cn) (cn_peer_port cn) (via_hdrs m))) os)
-            (firstn (List.length oss) (parse_stream (S (List.length data)) data)) oss.
-Proof. first [ exact C07.C07_step_tcp | intros; eapply C07.C07_step_tcp; eassumption ]. Qed.
-Theorem C07_judge_bridge_udp :
-  forall (pc : proxy_case) (st : jstate) (fx : fixes) (now : Z) (br : bytes) (li : nat) (lc : listen_cfg)
-         (src : bytes) (sport : Z) (data : bytes) (jin : jmsg) (m : message) (rest : bytes)
-         (x x' : ctx) (pre : list output) (keep : output -> bool) (closed : list nat),
-  let c := pc_cfg pc in
-  let e := mk_env fx c (item_rs_of (fx_wiring fx)) li lc now br in
-  fx_wiring fx = true ->
-  nth_opt (c_listens c) li = Some lc ->
-  j_read data = Some jin -> parse_message data = Ok (m, rest) ->
-  via_domain m ->
-  src_ok src -> branch_ok br ->
-  safe1 (lc_addr lc) = true -> 0 <= lc_udp lc <= 65535 -> 0 <= lc_tcp lc <= 65535 ->
-  (forall h t, alookup h (x_learned x) = Some t -> safe1 (t_addr t) = true /\ 0 <= t_port t <= 65535) ->
-  process_message e src sport {| t_kind := KUdp; t_addr := lc_addr lc; t_port := lc_udp lc |}
-                  (e_item_rs e) None m x = Ok x' ->
-  x_outs x' = x_outs x ++ pre ->
-  judge_C07_event pc st (EvUdp li src sport data) (map lab (filter keep pre)) closed = O.
-Proof. first [ exact C07_bridge.C07_judge_bridge_udp | intros; eapply C07_bridge.C07_judge_bridge_udp; eassumption ]. Qed.
-Theorem C07_judge_bridge_step :
-  forall (pc : proxy_case) (stj : jstate) (fx : fixes) (now : Z) (br : bytes) (st : state) (li : nat)
-         (lc : listen_cfg) (src : bytes) (sport : Z) (data : bytes) (jin : jmsg) (m : message) (rest : bytes)
-         (st' : state) (outs : list output) (keep : output -> bool) (closed : list nat),
-  fx_wiring fx = true -> nth_opt (c_listens (pc_cfg pc)) li = Some lc ->
-  j_read data = Some jin -> parse_message data = Ok (m, rest) ->
-  via_domain m -> src_ok src -> branch_ok br ->
-  safe1 (lc_addr lc) = true -> 0 <= lc_udp lc <= 65535 -> 0 <= lc_tcp lc <= 65535 ->
-  (forall h t, alookup h (st_learned st) = Some t -> safe1 (t_addr t) = true /\ 0 <= t_port t <= 65535) ->
-  proxy_step fx (pc_cfg pc) now br st (EvUdp li src sport data) = Ok (st', outs) ->
-  judge_C07_event pc stj (EvUdp li src sport data) (map lab (filter keep outs)) closed = O.
-Proof. first [ exact C07_bridge.C07_judge_bridge_step | intros; eapply C07_bridge.C07_judge_bridge_step; eassumption ]. Qed.
-End P_C07.
-
-(* ------------------------------------------------------------------ C13 *)
-From Model Require Import Bytes Wire Uri Hdr Message Msg StaticRoute RoundRobin Pins Proxy RunProxy SpecC14 SpecProxy SpecProxy2.
-From Model.proofs Require C06 C13 C13_bridge C13_bridge_tcp.
-Section P_C13.
-Import C06 C13 C13_bridge C13_bridge_tcp.
-Theorem C13_judge_bridge_tcp_msg :
-  forall pc stj cid li lc cn data closed jin m rest e x x',
-  nth_opt (c_listens (pc_cfg pc)) li = Some lc -> e_cfg e = pc_cfg pc -> e_lc e = lc ->
-  find (fun x => Nat.eqb (fst x) cid) (js_conns stj) = Some (cid, (li, cn_peer cn, cn_peer_port cn)) ->
-  cn_li cn = li -> cn_id cn = cid ->
-  cn_from cn = {| t_kind := KTcpListen; t_addr := lc_addr lc; t_port := lc_tcp lc |} ->
-  j_read data = Some jin -> parse_message data = Ok (m, rest) -> trim_left rest = [] ->
-  is_request m = true ->
-  route_domain_in (RS m) ->
-  B7.via_domain m -> B7.src_ok (cn_peer cn) -> B7.branch_ok (e_branch e) ->
-  safe1 (lc_addr lc) = true -> (0 <= lc_udp lc <= 65535)%Z -> (0 <= lc_tcp lc <= 65535)%Z ->
-  (forall h t, alookup h (x_learned x) = Some t -> safe1 (t_addr t) = true /\ (0 <= t_port t <= 65535)%Z) ->
-  process_message e (cn_peer cn) (cn_peer_port cn) (cn_from cn) (cn_received_support cn) (Some (cn_id cn)) m x = Ok x' ->
-  exists pre, x_outs x' = x_outs x ++ pre /\ (msg_count pre <= 1)%nat /\
-    forall vis, judge_C13_event pc stj (EvTcpData cid data) (map labelled (filter vis pre)) closed = 0%nat.
-Proof. first [ exact C13_bridge_tcp.C13_judge_bridge_tcp_msg | intros; eapply C13_bridge_tcp.C13_judge_bridge_tcp_msg; eassumption ]. Qed.
-Theorem C13_judge_bridge_tcp_step :
-  forall pc stj fx now br st st' outs cid li lc cn data closed jin m rest,
-  nth_opt (c_listens (pc_cfg pc)) li = Some lc ->
-  find (fun x => Nat.eqb (fst x) cid) (js_conns stj) = Some (cid, (li, cn_peer cn, cn_peer_port cn)) ->
-  find (fun x => Nat.eqb (cn_id x) cid) (st_conns st) = Some cn ->
-  cn_li cn = li ->
-  cn_from cn = {| t_kind := KTcpListen; t_addr := lc_addr lc; t_port := lc_tcp lc |} ->
-  j_read data = Some jin -> parse_message data = Ok (m, rest) -> trim_left rest = [] ->
-  is_request m = true ->
-  route_domain_in (RS m) ->
-  B7.via_domain m -> B7.src_ok (cn_peer cn) -> B7.branch_ok br ->
-  safe1 (lc_addr lc) = true -> (0 <= lc_udp lc <= 65535)%Z -> (0 <= lc_tcp lc <= 65535)%Z ->
-  (forall h t, alookup h (st_learned st) = Some t -> safe1 (t_addr t) = true /\ (0 <= t_port t <= 65535)%Z) ->
-  proxy_step fx (pc_cfg pc) now br st (EvTcpData cid data) = Ok (st', outs) ->
-  forall vis, judge_C13_event pc stj (EvTcpData cid data) (map labelled (filter vis outs)) closed = 0%nat.
-Proof. first [ exact C13_bridge_tcp.C13_judge_bridge_tcp_step | intros; eapply C13_bridge_tcp.C13_judge_bridge_tcp_step; eassumption ]. Qed.
-Theorem C13_route_headers : forall e peer peer_port from rs tcp m0 x x',
-  is_request m0 = true ->
-  process_message e peer peer_port from rs tcp m0 x = Ok x' ->
-  exists extra, x_outs x' = x_outs x ++ extra /\ (msg_count extra <= 1)%nat /\
-    forall o, In o extra -> is_msg o = true ->
-      exists mo, snd o = write_message mo /\
-                 routed (fun hs => step_next (c_keep_next_hop (e_cfg e)) (step_own (e_cfg e) from hs)) m0 mo.
-Proof. first [ exact C13_bridge.C13_route_headers | intros; eapply C13_bridge.C13_route_headers; eassumption ]. Qed.
-Theorem C13_judge_bridge_udp :
-  forall pc st li lc src sport data closed jin m rest e rs x x',
-  nth_opt (c_listens (pc_cfg pc)) li = Some lc -> e_cfg e = pc_cfg pc -> e_lc e = lc ->
-  j_read data = Some jin -> parse_message data = Ok (m, rest) ->
-  is_request m = true ->
-  route_domain_in (RS m) ->
-  B7.via_domain m -> B7.src_ok src -> B7.branch_ok (e_branch e) ->
-  safe1 (lc_addr lc) = true -> (0 <= lc_udp lc <= 65535)%Z -> (0 <= lc_tcp lc <= 65535)%Z ->
-  (forall h t, alookup h (x_learned x) = Some t -> safe1 (t_addr t) = true /\ (0 <= t_port t <= 65535)%Z) ->
-  process_message e src sport (udp_transport lc) rs None m x = Ok x' ->
-  exists pre, x_outs x' = x_outs x ++ pre /\ (msg_count pre <= 1)%nat /\
-    forall vis, judge_C13_event pc st (EvUdp li src sport data) (map labelled (filter vis pre)) closed = 0%nat.
-Proof. first [ exact C13_bridge.C13_judge_bridge_udp | intros; eapply C13_bridge.C13_judge_bridge_udp; eassumption ]. Qed.
-Theorem C13_judge_bridge_step :
-  forall pc stj fx now br st st' outs li lc src sport data closed jin m rest,
-  nth_opt (c_listens (pc_cfg pc)) li = Some lc ->
-  j_read data = Some jin -> parse_message data = Ok (m, rest) ->
-  is_request m = true ->
-  route_domain_in (RS m) ->
-  B7.via_domain m -> B7.src_ok src -> B7.branch_ok br ->
-  safe1 (lc_addr lc) = true -> (0 <= lc_udp lc <= 65535)%Z -> (0 <= lc_tcp lc <= 65535)%Z ->
-  (forall h t, alookup h (st_learned st) = Some t -> safe1 (t_addr t) = true /\ (0 <= t_port t <= 65535)%Z) ->
-  proxy_step fx (pc_cfg pc) now br st (EvUdp li src sport data) = Ok (st', outs) ->
-  forall vis, judge_C13_event pc stj (EvUdp li src sport data) (map labelled (filter vis outs)) closed = 0%nat.
-Proof. first [ exact C13_bridge.C13_judge_bridge_step | intros; eapply C13_bridge.C13_judge_bridge_step; eassumption ]. Qed.
-Theorem C13_own_popped_iff : forall c from m,
-  route_view (fst (mtry (try_remove_top_route c from) m)) =
-  match route_view m with
-  | EDec e1 :: rest => if designates c from e1 then rest else route_view m
-  | _ => route_view m
-  end.
-Proof. first [ exact C13.try_remove_top_route_pops_iff_own | intros; eapply C13.try_remove_top_route_pops_iff_own; eassumption ]. Qed.
-Theorem C13_next_hop_popped_iff_not_keep : forall keep m,
-  match route_view m with
-  | EDec rp :: rest =>
-      route_view (fst (next_hop_by_route keep m)) = (if keep then EDec rp :: rest else rest) /\
-      snd (next_hop_by_route keep m) =
-        match na_addr (r_addr rp) with
-        | ASip u => Ok (u_host u, sip_uri_get_port u, sip_uri_transport u)
-        | AAbs _ => Err
-        end
-  | _ => route_view (fst (next_hop_by_route keep m)) = route_view m /\ is_ok (snd (next_hop_by_route keep m)) = false
-  end.
-Proof. first [ exact C13.next_hop_by_route_pops_iff_not_keep | intros; eapply C13.next_hop_by_route_pops_iff_not_keep; eassumption ]. Qed.
-Theorem C13_route : forall e peer peer_port from rs tcp m0 x x',
-  is_request m0 = true ->
-  process_message e peer peer_port from rs tcp m0 x = Ok x' ->
-  exists extra, x_outs x' = x_outs x ++ extra /\ (msg_count extra <= 1)%nat /\
-    forall o, In o extra -> is_msg o = true ->
-      exists mo, snd o = write_message mo /\
-                 route_view mo = skipn (route_consumed (e_cfg e) from (c_keep_next_hop (e_cfg e)) (route_view m0))
-                                       (route_view m0).
-Proof. first [ exact C13.C13_route | intros; eapply C13.C13_route; eassumption ]. Qed.
-Theorem C13_route_decoded : forall e peer peer_port from rs tcp m0 x x' entries,
-  is_request m0 = true ->
-  route_view m0 = map EDec entries ->
-  process_message e peer peer_port from rs tcp m0 x = Ok x' ->
-  let own := own_of (e_cfg e) from entries in
-  let remaining := if own then tl entries else entries in
-  let k := ((if own then 1 else 0) +
-            (match remaining with _ :: _ => if c_keep_next_hop (e_cfg e) then 0 else 1 | [] => 0 end))%nat in
-  exists extra, x_outs x' = x_outs x ++ extra /\ (msg_count extra <= 1)%nat /\
-    forall o, In o extra -> is_msg o = true ->
-      exists mo, snd o = write_message mo /\ route_view mo = map EDec (skipn k entries).
-Proof. first [ exact C13.C13_route_decoded | intros; eapply C13.C13_route_decoded; eassumption ]. Qed.
-Theorem C13_route_view_grammar : forall l, l <> [] -> forallb wf_relem l = true ->
-  hval_entries (HRaw (rp_route l)) = map EDec (map C14_hdr.embed_relem l).
-Proof. first [ exact C13.route_view_grammar | intros; eapply C13.route_view_grammar; eassumption ]. Qed.
-Theorem C13_route_header_text : forall l, forallb wf_relem l = true ->
-  hval_print (HRoute (map C14_hdr.embed_relem l)) = rp_route l.
-Proof. first [ exact C13.route_header_text | intros; eapply C13.route_header_text; eassumption ]. Qed.
-Theorem C13_keep_setting_decides : forall setting env, setting <> [] ->
-  to_keep_next_hop_route setting env = truthy setting.
-Proof. first [ exact C13.C13_keep_setting_decides | intros; eapply C13.C13_keep_setting_decides; eassumption ]. Qed.
-Theorem C13_keep_env_default : forall env, to_keep_next_hop_route [] env = truthy env.
-Proof. first [ exact C13.C13_keep_env_default | intros; eapply C13.C13_keep_env_default; eassumption ]. Qed.
-End P_C13.
-
 (* ------------------------------------------------------------------ C02 *)
 From Model Require Import Bytes Wire Uri Hdr Message Msg StaticRoute RoundRobin Pins Proxy RunProxy SpecC14 SpecProxy SpecProxy2.
 From Model.proofs Require C06 C13_bridge C07_bridge C07 C02 C02_bridge C02_bridge_tcp.
@@ -2092,6 +1842,7 @@ Theorem C03_judge_bridge_tcp_msg :
   forall pc stj cid li lc cn data closed jin m rest e x x' l pre,
   nth_opt (c_listens (pc_cfg pc)) li = Some lc -> e_cfg e = pc_cfg pc -> e_lc e = lc ->
   find (fun y => Nat.eqb (fst y) cid) (js_conns stj) = Some (cid, (li, cn_peer cn, cn_peer_port cn)) ->
+  (li < dial_mark)%nat ->
   cn_from cn = {| t_kind := KTcpListen; t_addr := lc_addr lc; t_port := lc_tcp lc |} ->
   j_read data = Some jin -> parse_message data = Ok (m, rest) ->
   route_domain_in (RS m) -> to_domain m -> ruri_domain jin ->
@@ -2114,6 +1865,7 @@ Theorem C03_judge_bridge_tcp_step :
   nth_opt (c_listens (pc_cfg pc)) li = Some lc ->
   find (fun y => Nat.eqb (cn_id y) cid) (st_conns st) = Some cn ->
   find (fun y => Nat.eqb (fst y) cid) (js_conns stj) = Some (cid, (li, cn_peer cn, cn_peer_port cn)) ->
+  (li < dial_mark)%nat ->
   cn_li cn = li -> cn_open cn = true ->
   cn_from cn = {| t_kind := KTcpListen; t_addr := lc_addr lc; t_port := lc_tcp lc |} ->
   j_read data = Some jin -> parse_message data = Ok (m, rest) -> trim_left rest = [] ->
@@ -2135,6 +1887,7 @@ Theorem C03_judge_bridge_tcp_step_no_tcp :
   nth_opt (c_listens (pc_cfg pc)) li = Some lc ->
   find (fun y => Nat.eqb (cn_id y) cid) (st_conns st) = Some cn ->
   find (fun y => Nat.eqb (fst y) cid) (js_conns stj) = Some (cid, (li, cn_peer cn, cn_peer_port cn)) ->
+  (li < dial_mark)%nat ->
   cn_li cn = li -> cn_open cn = true ->
   cn_from cn = {| t_kind := KTcpListen; t_addr := lc_addr lc; t_port := lc_tcp lc |} ->
   j_read data = Some jin -> parse_message data = Ok (m, rest) -> trim_left rest = [] ->
@@ -2311,6 +2064,7 @@ Theorem C06_judge_bridge_tcp_msg :
   nth_opt (c_listens (pc_cfg pc)) li = Some lc -> e_cfg e = pc_cfg pc -> e_lc e = lc ->
   e_branch e = branch_of (js_event stj) ->
   find (fun y => Nat.eqb (fst y) cid) (js_conns stj) = Some (cid, (li, cn_peer cn, cn_peer_port cn)) ->
+  (li < dial_mark)%nat ->
   cn_from cn = {| t_kind := KTcpListen; t_addr := lc_addr lc; t_port := lc_tcp lc |} ->
   j_read data = Some jin -> parse_message data = Ok (m, rest) ->
   agree_learned (pc_cfg pc) (js_learned stj) (x_learned x) ->
@@ -2329,6 +2083,7 @@ Theorem C06_judge_bridge_tcp_step :
   nth_opt (c_listens (pc_cfg pc)) li = Some lc ->
   find (fun y => Nat.eqb (cn_id y) cid) (st_conns st) = Some cn ->
   find (fun y => Nat.eqb (fst y) cid) (js_conns stj) = Some (cid, (li, cn_peer cn, cn_peer_port cn)) ->
+  (li < dial_mark)%nat ->
   cn_li cn = li ->
   cn_from cn = {| t_kind := KTcpListen; t_addr := lc_addr lc; t_port := lc_tcp lc |} ->
   j_read data = Some jin -> parse_message data = Ok (m, rest) -> trim_left rest = [] ->
@@ -2347,6 +2102,7 @@ Theorem C06_agree_tcp_step :
   nth_opt (c_listens (pc_cfg pc)) li = Some lc ->
   find (fun y => Nat.eqb (cn_id y) cid) (st_conns st) = Some cn ->
   find (fun y => Nat.eqb (fst y) cid) (js_conns stj) = Some (cid, (li, cn_peer cn, cn_peer_port cn)) ->
+  (li < dial_mark)%nat ->
   cn_li cn = li -> cn_open cn = true ->
   cn_from cn = {| t_kind := KTcpListen; t_addr := lc_addr lc; t_port := lc_tcp lc |} ->
   j_read data = Some jin -> parse_message data = Ok (m, rest) -> trim_left rest = [] ->
@@ -2529,3 +2285,257 @@ Theorem C06_relayed_request : forall e peer peer_port from rs tcp m0 x x',
         end.
 Proof. first [ exact C03.C06_relayed_request | intros; eapply C03.C06_relayed_request; eassumption ]. Qed.
 End P_C06.
+
+(* ------------------------------------------------------------------ C07 *)
+From Model Require Import Bytes Wire Uri Hdr Message Msg StaticRoute RoundRobin Pins Proxy RunProxy SpecC14 SpecProxy SpecProxy2.
+From Model.proofs Require C07 C07_bridge C07_bridge_tcp.
+Section P_C07.
+Import C07 C07_bridge C07_bridge_tcp.
+Theorem C07_judge_bridge_tcp_msg :
+  forall (pc : proxy_case) (stj : jstate) (fx : fixes) (now : Z) (br : bytes) (cid li : nat) (lc : listen_cfg)
+         (cn : conn) (data : bytes) (jin : jmsg) (m : message) (rest : bytes)
+         (x x' : ctx) (pre : list output) (keep : output -> bool) (closed : list nat),
+  let c := pc_cfg pc in
+  let e := mk_env fx c (item_rs_of (fx_wiring fx)) li lc now br in
+  nth_opt (c_listens c) li = Some lc ->
+  find (fun y => Nat.eqb (fst y) cid) (js_conns stj) = Some (cid, (li, cn_peer cn, cn_peer_port cn)) ->
+  (li < dial_mark)%nat ->
+  cn_from cn = {| t_kind := KTcpListen; t_addr := lc_addr lc; t_port := lc_tcp lc |} ->
+  cn_received_support cn = received_on lc ->
+  j_read data = Some jin -> parse_message data = Ok (m, rest) ->
+  via_domain m ->
+  src_ok (cn_peer cn) -> branch_ok br ->
+  safe1 (lc_addr lc) = true -> 0 <= lc_udp lc <= 65535 -> 0 <= lc_tcp lc <= 65535 ->
+  (forall h t, alookup h (x_learned x) = Some t -> safe1 (t_addr t) = true /\ 0 <= t_port t <= 65535) ->
+  process_message e (cn_peer cn) (cn_peer_port cn) (cn_from cn) (cn_received_support cn) (Some (cn_id cn)) m x
+    = Ok x' ->
+  x_outs x' = x_outs x ++ pre ->
+  judge_C07_event pc stj (EvTcpData cid data) (map lab (filter keep pre)) closed = O.
+Proof. first [ exact C07_bridge_tcp.C07_judge_bridge_tcp_msg | intros; eapply C07_bridge_tcp.C07_judge_bridge_tcp_msg; eassumption ]. Qed.
+Theorem C07_judge_bridge_tcp_step :
+  forall (pc : proxy_case) (stj : jstate) (fx : fixes) (now : Z) (br : bytes) (st : state) (cid li : nat)
+         (lc : listen_cfg) (cn : conn) (data : bytes) (jin : jmsg) (m : message) (rest : bytes)
+         (st' : state) (outs : list output) (keep : output -> bool) (closed : list nat),
+  nth_opt (c_listens (pc_cfg pc)) li = Some lc ->
+  find (fun y => Nat.eqb (cn_id y) cid) (st_conns st) = Some cn ->
+  find (fun y => Nat.eqb (fst y) cid) (js_conns stj) = Some (cid, (li, cn_peer cn, cn_peer_port cn)) ->
+  (li < dial_mark)%nat ->
+  cn_li cn = li ->
+  cn_from cn = {| t_kind := KTcpListen; t_addr := lc_addr lc; t_port := lc_tcp lc |} ->
+  cn_received_support cn = received_on lc ->
+  j_read data = Some jin -> parse_message data = Ok (m, rest) -> trim_left rest = [] ->
+  via_domain m -> src_ok (cn_peer cn) -> branch_ok br ->
+  safe1 (lc_addr lc) = true -> 0 <= lc_udp lc <= 65535 -> 0 <= lc_tcp lc <= 65535 ->
+  (forall h t, alookup h (st_learned st) = Some t -> safe1 (t_addr t) = true /\ 0 <= t_port t <= 65535) ->
+  proxy_step fx (pc_cfg pc) now br st (EvTcpData cid data) = Ok (st', outs) ->
+  judge_C07_event pc stj (EvTcpData cid data) (map lab (filter keep outs)) closed = O.
+Proof. first [ exact C07_bridge_tcp.C07_judge_bridge_tcp_step | intros; eapply C07_bridge_tcp.C07_judge_bridge_tcp_step; eassumption ]. Qed.
+Theorem C07_stamp : forall peer port m pre h post v rest,
+  m_headers m = pre ++ h :: post -> nomatch VIA pre -> same_header (h_name h) VIA = true ->
+  hval_vias (h_val h) = Some (v :: rest) ->
+  s_set_received peer port m =
+    ({| m_start := m_start m;
+        m_headers := pre ++ {| h_name := h_name h; h_val := HVia (stamp peer port v :: rest) |} :: post;
+        m_body := m_body m |}, Ok tt).
+Proof. first [ exact C07.C07_stamp | intros; eapply C07.C07_stamp; eassumption ]. Qed.
+Theorem C07_stamp_params : forall peer port v,
+  v_params (stamp peer port v) =
+    (if kv_has (s2b "rport") (kv_set (s2b "received") peer (v_params v))
+     then kv_set (s2b "rport") (itoa port) (kv_set (s2b "received") peer (v_params v))
+     else kv_set (s2b "received") peer (v_params v)) /\
+  v_name (stamp peer port v) = v_name v /\ v_version (stamp peer port v) = v_version v /\
+  v_transport (stamp peer port v) = v_transport v /\ v_host (stamp peer port v) = v_host v /\
+  v_port (stamp peer port v) = v_port v.
+Proof. first [ exact C07.C07_stamp_params | intros; eapply C07.C07_stamp_params; eassumption ]. Qed.
+Theorem C07_kv_set_char : forall k v l,
+  kv_get k (kv_set k v l) = Some v /\
+  (forall k', k' <> k -> kv_get k' (kv_set k v l) = kv_get k' l) /\
+  filter (fun p => negb (beq (k_key p) k)) (kv_set k v l) = filter (fun p => negb (beq (k_key p) k)) l /\
+  (kv_has k l = true -> exists a p b, l = a ++ p :: b /\ k_key p = k /\ kv_get k a = None /\
+                                      kv_set k v l = a ++ {| k_key := k_key p; k_val := v |} :: b) /\
+  (kv_has k l = false -> kv_set k v l = l ++ [{| k_key := k; k_val := v |}]).
+Proof. first [ exact C07.C07_kv_set_char | intros; eapply C07.C07_kv_set_char; eassumption ]. Qed.
+Theorem C07_pipeline : forall e peer port from rs tcp m0 x x',
+  is_request m0 = true ->
+  process_message e peer port from rs tcp m0 x = Ok x' ->
+  exists outs, x_outs x' = x_outs x ++ outs /\
+               Forall (relayed_as (e_branch e) (stamp_hdrs rs peer port (via_hdrs m0))) outs.
+Proof. first [ exact C07.C07_pipeline | intros; eapply C07.C07_pipeline; eassumption ]. Qed.
+Theorem C07_wiring : forall lc,
+  item_rs_of true lc = negb (lc_no_received lc) /\
+  pa_received_support (wire_proxy lc) = negb (lc_no_received lc).
+Proof. first [ exact C07.C07_wiring | intros; eapply C07.C07_wiring; eassumption ]. Qed.
+Theorem C07_wiring_legacy : forall lc, item_rs_of false lc = lc_def_route lc.
+Proof. first [ exact C07.C07_wiring_legacy | intros; eapply C07.C07_wiring_legacy; eassumption ]. Qed.
+Theorem C07_wired_reachable : forall fx c st, fx_wiring fx = true -> reachable fx c st -> wired c (st_conns st).
+Proof. first [ exact C07.C07_wired_reachable | intros; eapply C07.C07_wired_reachable; eassumption ]. Qed.
+Theorem C07_step_udp : forall fx c now br st li src sport data lc m rest st' outs,
+  nth_opt (c_listens c) li = Some lc -> parse_message data = Ok (m, rest) -> is_request m = true ->
+  proxy_step fx c now br st (EvUdp li src sport data) = Ok (st', outs) ->
+  Forall (relayed_as br (stamp_hdrs (item_rs_of (fx_wiring fx) lc) src sport (via_hdrs m))) outs.
+Proof. first [ exact C07.C07_step_udp | intros; eapply C07.C07_step_udp; eassumption ]. Qed.
+Theorem C07_step_tcp : forall fx c now br st cid data cn lc st' outs,
+  find (fun x => Nat.eqb (cn_id x) cid) (st_conns st) = Some cn ->
+  nth_opt (c_listens c) (cn_li cn) = Some lc ->
+  proxy_step fx c now br st (EvTcpData cid data) = Ok (st', outs) ->
+  exists oss, outs = List.concat oss /\
+    Forall2 (fun m os => is_request m = true ->
+               Forall (relayed_as br (stamp_hdrs (cn_received_support cn) (cn_peer cn) (cn_peer_port cn) (via_hdrs m))) os)
+            (firstn (List.length oss) (parse_stream (S (List.length data)) data)) oss.
+Proof. first [ exact C07.C07_step_tcp | intros; eapply C07.C07_step_tcp; eassumption ]. Qed.
+Theorem C07_judge_bridge_udp :
+  forall (pc : proxy_case) (st : jstate) (fx : fixes) (now : Z) (br : bytes) (li : nat) (lc : listen_cfg)
+         (src : bytes) (sport : Z) (data : bytes) (jin : jmsg) (m : message) (rest : bytes)
+         (x x' : ctx) (pre : list output) (keep : output -> bool) (closed : list nat),
+  let c := pc_cfg pc in
+  let e := mk_env fx c (item_rs_of (fx_wiring fx)) li lc now br in
+  fx_wiring fx = true ->
+  nth_opt (c_listens c) li = Some lc ->
+  j_read data = Some jin -> parse_message data = Ok (m, rest) ->
+  via_domain m ->
+  src_ok src -> branch_ok br ->
+  safe1 (lc_addr lc) = true -> 0 <= lc_udp lc <= 65535 -> 0 <= lc_tcp lc <= 65535 ->
+  (forall h t, alookup h (x_learned x) = Some t -> safe1 (t_addr t) = true /\ 0 <= t_port t <= 65535) ->
+  process_message e src sport {| t_kind := KUdp; t_addr := lc_addr lc; t_port := lc_udp lc |}
+                  (e_item_rs e) None m x = Ok x' ->
+  x_outs x' = x_outs x ++ pre ->
+  judge_C07_event pc st (EvUdp li src sport data) (map lab (filter keep pre)) closed = O.
+Proof. first [ exact C07_bridge.C07_judge_bridge_udp | intros; eapply C07_bridge.C07_judge_bridge_udp; eassumption ]. Qed.
+Theorem C07_judge_bridge_step :
+  forall (pc : proxy_case) (stj : jstate) (fx : fixes) (now : Z) (br : bytes) (st : state) (li : nat)
+         (lc : listen_cfg) (src : bytes) (sport : Z) (data : bytes) (jin : jmsg) (m : message) (rest : bytes)
+         (st' : state) (outs : list output) (keep : output -> bool) (closed : list nat),
+  fx_wiring fx = true -> nth_opt (c_listens (pc_cfg pc)) li = Some lc ->
+  j_read data = Some jin -> parse_message data = Ok (m, rest) ->
+  via_domain m -> src_ok src -> branch_ok br ->
+  safe1 (lc_addr lc) = true -> 0 <= lc_udp lc <= 65535 -> 0 <= lc_tcp lc <= 65535 ->
+  (forall h t, alookup h (st_learned st) = Some t -> safe1 (t_addr t) = true /\ 0 <= t_port t <= 65535) ->
+  proxy_step fx (pc_cfg pc) now br st (EvUdp li src sport data) = Ok (st', outs) ->
+  judge_C07_event pc stj (EvUdp li src sport data) (map lab (filter keep outs)) closed = O.
+Proof. first [ exact C07_bridge.C07_judge_bridge_step | intros; eapply C07_bridge.C07_judge_bridge_step; eassumption ]. Qed.
+End P_C07.
+
+(* ------------------------------------------------------------------ C13 *)
+From Model Require Import Bytes Wire Uri Hdr Message Msg StaticRoute RoundRobin Pins Proxy RunProxy SpecC14 SpecProxy SpecProxy2.
+From Model.proofs Require C06 C13 C13_bridge C13_bridge_tcp.
+Section P_C13.
+Import C06 C13 C13_bridge C13_bridge_tcp.
+Theorem C13_judge_bridge_tcp_msg :
+  forall pc stj cid li lc cn data closed jin m rest e x x',
+  nth_opt (c_listens (pc_cfg pc)) li = Some lc -> e_cfg e = pc_cfg pc -> e_lc e = lc ->
+  find (fun x => Nat.eqb (fst x) cid) (js_conns stj) = Some (cid, (li, cn_peer cn, cn_peer_port cn)) ->
+  (li < dial_mark)%nat ->
+  cn_li cn = li -> cn_id cn = cid ->
+  cn_from cn = {| t_kind := KTcpListen; t_addr := lc_addr lc; t_port := lc_tcp lc |} ->
+  j_read data = Some jin -> parse_message data = Ok (m, rest) -> trim_left rest = [] ->
+  is_request m = true ->
+  route_domain_in (RS m) ->
+  B7.via_domain m -> B7.src_ok (cn_peer cn) -> B7.branch_ok (e_branch e) ->
+  safe1 (lc_addr lc) = true -> (0 <= lc_udp lc <= 65535)%Z -> (0 <= lc_tcp lc <= 65535)%Z ->
+  (forall h t, alookup h (x_learned x) = Some t -> safe1 (t_addr t) = true /\ (0 <= t_port t <= 65535)%Z) ->
+  process_message e (cn_peer cn) (cn_peer_port cn) (cn_from cn) (cn_received_support cn) (Some (cn_id cn)) m x = Ok x' ->
+  exists pre, x_outs x' = x_outs x ++ pre /\ (msg_count pre <= 1)%nat /\
+    forall vis, judge_C13_event pc stj (EvTcpData cid data) (map labelled (filter vis pre)) closed = 0%nat.
+Proof. first [ exact C13_bridge_tcp.C13_judge_bridge_tcp_msg | intros; eapply C13_bridge_tcp.C13_judge_bridge_tcp_msg; eassumption ]. Qed.
+Theorem C13_judge_bridge_tcp_step :
+  forall pc stj fx now br st st' outs cid li lc cn data closed jin m rest,
+  nth_opt (c_listens (pc_cfg pc)) li = Some lc ->
+  find (fun x => Nat.eqb (fst x) cid) (js_conns stj) = Some (cid, (li, cn_peer cn, cn_peer_port cn)) ->
+  (li < dial_mark)%nat ->
+  find (fun x => Nat.eqb (cn_id x) cid) (st_conns st) = Some cn ->
+  cn_li cn = li ->
+  cn_from cn = {| t_kind := KTcpListen; t_addr := lc_addr lc; t_port := lc_tcp lc |} ->
+  j_read data = Some jin -> parse_message data = Ok (m, rest) -> trim_left rest = [] ->
+  is_request m = true ->
+  route_domain_in (RS m) ->
+  B7.via_domain m -> B7.src_ok (cn_peer cn) -> B7.branch_ok br ->
+  safe1 (lc_addr lc) = true -> (0 <= lc_udp lc <= 65535)%Z -> (0 <= lc_tcp lc <= 65535)%Z ->
+  (forall h t, alookup h (st_learned st) = Some t -> safe1 (t_addr t) = true /\ (0 <= t_port t <= 65535)%Z) ->
+  proxy_step fx (pc_cfg pc) now br st (EvTcpData cid data) = Ok (st', outs) ->
+  forall vis, judge_C13_event pc stj (EvTcpData cid data) (map labelled (filter vis outs)) closed = 0%nat.
+Proof. first [ exact C13_bridge_tcp.C13_judge_bridge_tcp_step | intros; eapply C13_bridge_tcp.C13_judge_bridge_tcp_step; eassumption ]. Qed.
+Theorem C13_route_headers : forall e peer peer_port from rs tcp m0 x x',
+  is_request m0 = true ->
+  process_message e peer peer_port from rs tcp m0 x = Ok x' ->
+  exists extra, x_outs x' = x_outs x ++ extra /\ (msg_count extra <= 1)%nat /\
+    forall o, In o extra -> is_msg o = true ->
+      exists mo, snd o = write_message mo /\
+                 routed (fun hs => step_next (c_keep_next_hop (e_cfg e)) (step_own (e_cfg e) from hs)) m0 mo.
+Proof. first [ exact C13_bridge.C13_route_headers | intros; eapply C13_bridge.C13_route_headers; eassumption ]. Qed.
+Theorem C13_judge_bridge_udp :
+  forall pc st li lc src sport data closed jin m rest e rs x x',
+  nth_opt (c_listens (pc_cfg pc)) li = Some lc -> e_cfg e = pc_cfg pc -> e_lc e = lc ->
+  j_read data = Some jin -> parse_message data = Ok (m, rest) ->
+  is_request m = true ->
+  route_domain_in (RS m) ->
+  B7.via_domain m -> B7.src_ok src -> B7.branch_ok (e_branch e) ->
+  safe1 (lc_addr lc) = true -> (0 <= lc_udp lc <= 65535)%Z -> (0 <= lc_tcp lc <= 65535)%Z ->
+  (forall h t, alookup h (x_learned x) = Some t -> safe1 (t_addr t) = true /\ (0 <= t_port t <= 65535)%Z) ->
+  process_message e src sport (udp_transport lc) rs None m x = Ok x' ->
+  exists pre, x_outs x' = x_outs x ++ pre /\ (msg_count pre <= 1)%nat /\
+    forall vis, judge_C13_event pc st (EvUdp li src sport data) (map labelled (filter vis pre)) closed = 0%nat.
+Proof. first [ exact C13_bridge.C13_judge_bridge_udp | intros; eapply C13_bridge.C13_judge_bridge_udp; eassumption ]. Qed.
+Theorem C13_judge_bridge_step :
+  forall pc stj fx now br st st' outs li lc src sport data closed jin m rest,
+  nth_opt (c_listens (pc_cfg pc)) li = Some lc ->
+  j_read data = Some jin -> parse_message data = Ok (m, rest) ->
+  is_request m = true ->
+  route_domain_in (RS m) ->
+  B7.via_domain m -> B7.src_ok src -> B7.branch_ok br ->
+  safe1 (lc_addr lc) = true -> (0 <= lc_udp lc <= 65535)%Z -> (0 <= lc_tcp lc <= 65535)%Z ->
+  (forall h t, alookup h (st_learned st) = Some t -> safe1 (t_addr t) = true /\ (0 <= t_port t <= 65535)%Z) ->
+  proxy_step fx (pc_cfg pc) now br st (EvUdp li src sport data) = Ok (st', outs) ->
+  forall vis, judge_C13_event pc stj (EvUdp li src sport data) (map labelled (filter vis outs)) closed = 0%nat.
+Proof. first [ exact C13_bridge.C13_judge_bridge_step | intros; eapply C13_bridge.C13_judge_bridge_step; eassumption ]. Qed.
+Theorem C13_own_popped_iff : forall c from m,
+  route_view (fst (mtry (try_remove_top_route c from) m)) =
+  match route_view m with
+  | EDec e1 :: rest => if designates c from e1 then rest else route_view m
+  | _ => route_view m
+  end.
+Proof. first [ exact C13.try_remove_top_route_pops_iff_own | intros; eapply C13.try_remove_top_route_pops_iff_own; eassumption ]. Qed.
+Theorem C13_next_hop_popped_iff_not_keep : forall keep m,
+  match route_view m with
+  | EDec rp :: rest =>
+      route_view (fst (next_hop_by_route keep m)) = (if keep then EDec rp :: rest else rest) /\
+      snd (next_hop_by_route keep m) =
+        match na_addr (r_addr rp) with
+        | ASip u => Ok (u_host u, sip_uri_get_port u, sip_uri_transport u)
+        | AAbs _ => Err
+        end
+  | _ => route_view (fst (next_hop_by_route keep m)) = route_view m /\ is_ok (snd (next_hop_by_route keep m)) = false
+  end.
+Proof. first [ exact C13.next_hop_by_route_pops_iff_not_keep | intros; eapply C13.next_hop_by_route_pops_iff_not_keep; eassumption ]. Qed.
+Theorem C13_route : forall e peer peer_port from rs tcp m0 x x',
+  is_request m0 = true ->
+  process_message e peer peer_port from rs tcp m0 x = Ok x' ->
+  exists extra, x_outs x' = x_outs x ++ extra /\ (msg_count extra <= 1)%nat /\
+    forall o, In o extra -> is_msg o = true ->
+      exists mo, snd o = write_message mo /\
+                 route_view mo = skipn (route_consumed (e_cfg e) from (c_keep_next_hop (e_cfg e)) (route_view m0))
+                                       (route_view m0).
+Proof. first [ exact C13.C13_route | intros; eapply C13.C13_route; eassumption ]. Qed.
+Theorem C13_route_decoded : forall e peer peer_port from rs tcp m0 x x' entries,
+  is_request m0 = true ->
+  route_view m0 = map EDec entries ->
+  process_message e peer peer_port from rs tcp m0 x = Ok x' ->
+  let own := own_of (e_cfg e) from entries in
+  let remaining := if own then tl entries else entries in
+  let k := ((if own then 1 else 0) +
+            (match remaining with _ :: _ => if c_keep_next_hop (e_cfg e) then 0 else 1 | [] => 0 end))%nat in
+  exists extra, x_outs x' = x_outs x ++ extra /\ (msg_count extra <= 1)%nat /\
+    forall o, In o extra -> is_msg o = true ->
+      exists mo, snd o = write_message mo /\ route_view mo = map EDec (skipn k entries).
+Proof. first [ exact C13.C13_route_decoded | intros; eapply C13.C13_route_decoded; eassumption ]. Qed.
+Theorem C13_route_view_grammar : forall l, l <> [] -> forallb wf_relem l = true ->
+  hval_entries (HRaw (rp_route l)) = map EDec (map C14_hdr.embed_relem l).
+Proof. first [ exact C13.route_view_grammar | intros; eapply C13.route_view_grammar; eassumption ]. Qed.
+Theorem C13_route_header_text : forall l, forallb wf_relem l = true ->
+  hval_print (HRoute (map C14_hdr.embed_relem l)) = rp_route l.
+Proof. first [ exact C13.route_header_text | intros; eapply C13.route_header_text; eassumption ]. Qed.
+Theorem C13_keep_setting_decides : forall setting env, setting <> [] ->
+  to_keep_next_hop_route setting env = truthy setting.
+Proof. first [ exact C13.C13_keep_setting_decides | intros; eapply C13.C13_keep_setting_decides; eassumption ]. Qed.
+Theorem C13_keep_env_default : forall env, to_keep_next_hop_route [] env = truthy env.
+Proof. first [ exact C13.C13_keep_env_default | intros; eapply C13.C13_keep_env_default; eassumption ]. Qed.
+End P_C13.
